@@ -44,6 +44,8 @@ class Sequence:
         # actually apply to the first item
         if self.jobs:
             self.jobs[0].requires(required)
+        # an empty sequence keeps them for the first job to be appended
+        self._pending_required = None if self.jobs else required
         # make all jobs belong in the scheduler if provided
         self.scheduler = scheduler
         if self.scheduler is not None:
@@ -75,8 +77,18 @@ class Sequence:
         if not sequences_or_jobs:
             return
         new_jobs = self._flatten(sequences_or_jobs)
-        if self.jobs:
-            new_jobs[0].requires(self.jobs[-1])
+        if not new_jobs:
+            return
+        # chain the new jobs behind the current last job, and together
+        previous = self.jobs[-1] if self.jobs else None
+        for job in new_jobs:
+            if previous is not None:
+                job.requires(previous)
+            previous = job
+        # the sequence's own requirements go to its first job
+        if not self.jobs:
+            new_jobs[0].requires(self._pending_required)
+            self._pending_required = None
         self.jobs += new_jobs
         if self.scheduler is not None:
             self.scheduler.update(new_jobs)
